@@ -425,7 +425,12 @@ def mon_c04(spec, rec, solver_obj=None):
                     out.append(("%s/energy-history-increases" % solver, "best-energy history goes up: %r -> %r" % (a, b), {"op_index": si}))
                     break
             if sn["bestEnergy"] is not None and not (eh[-1] == sn["bestEnergy"] or (eh[-1] != eh[-1] and sn["bestEnergy"] != sn["bestEnergy"])):
-                out.append(("%s/energy-history-last" % solver, "last history entry %r != reported best energy %r" % (eh[-1], sn["bestEnergy"]), {"op_index": si}))
+                key = "%s/energy-history-last" % solver
+                if solver == "Powell" and any(o[0] == "setstepmon" for o in spec["ops"][:si + 1]):
+                    # F2c seen on the history: SetGenerationMonitor reset Powell's energy_history override, so the entry of the
+                    # iteration completed last is gone until the next iteration writes its record
+                    key = "Powell/energy-history-last/SetGenerationMonitor-drops-pending-record"
+                out.append((key, "last history entry %r != reported best energy %r" % (eh[-1], sn["bestEnergy"]), {"op_index": si}))
         # stopped run: step monitor ends in the reported result, one record per generation
         if (op in ("step", "solve") and sn["ret"] is not None or op == "solve") and not any(o[0] == "setranges" for o in spec["ops"]):
             if sn["n_stepmon"]:
